@@ -82,7 +82,10 @@ def execute(ctx, case):
         if kind == "thr":
             base = gen.thresholds(rng, allv, with_inf=True)
         else:
-            base = np.concatenate([rng.uniform(-0.1, 1.1, 6), [0.0, 1.0]])
+            # exact rates k/N of each population (the interpolation index is then an exact integer) besides generic targets
+            pops = [n for n in (len(pos), len(neg), len(pos) + len(neg), len(pos) + case["ep"], len(neg) + case["en"]) if n > 0]
+            N_ = int(rng.choice(pops))
+            base = np.concatenate([rng.uniform(-0.1, 1.1, 6), [0.0, 1.0], rng.integers(0, N_ + 1, 4) / N_, 1.0 - rng.integers(0, N_ + 1, 2) / N_, np.round(rng.uniform(0, 1, 2), 1)])
         vals = rng.choice(base, max(size, 1))
         if form == "pyfloat":
             return float(vals[0])
